@@ -23,7 +23,9 @@ def wrap_program(prog, with_evidence):
     program W whose answers carry the subquery probability as an argument."""
     body = [s for s in prog if s[0] not in ("query", "evidence")]
     queries = [s[1] for s in prog if s[0] == "query"]
-    evid = [(s[1], s[2]) for s in prog if s[0] == "evidence"] if with_evidence else []
+    distract = with_evidence == "distract"
+    all_evid = [(s[1], s[2]) for s in prog if s[0] == "evidence"]
+    evid = all_evid if with_evidence is True else []
     base = gen.program_text(body)
     top = base + "".join("query(%s).\n" % gen.atom_str(q) for q in queries)
     top += "".join("evidence(%s,%s).\n" % (gen.atom_str(a), "true" if v else "false") for a, v in evid)
@@ -34,6 +36,11 @@ def wrap_program(prog, with_evidence):
         if evid:
             el = "[%s]" % ",".join(("" if v else "\\+") + gen.atom_str(a) for a, v in evid)
             w += "%s :- subquery(%s, P, %s).\n" % (head, gen.atom_str(q), el)
+        elif distract and all_evid and not vs:
+            # the same goal is first asked under the skeleton's evidence (answer ignored), then without evidence:
+            # the second answer has to be the marginal, whatever the first call left behind
+            el = "[%s]" % ",".join(("" if v else "\\+") + gen.atom_str(a) for a, v in all_evid)
+            w += "%s :- subquery(%s, _, %s), subquery(%s, P).\n" % (head, gen.atom_str(q), el, gen.atom_str(q))
         else:
             w += "%s :- subquery(%s, P).\n" % (head, gen.atom_str(q))
         w += "query(%s).\n" % head
@@ -149,6 +156,10 @@ def work(item):
     if o.kind == "error" or kind == "exc":
         e1 = o.error
         e2 = val if kind == "exc" else None
+        if with_ev == "distract" and e1 is None and type(e2).__name__ == "InconsistentEvidenceError":
+            # the skeleton's evidence is impossible: the distractor call cannot be evaluated, nothing to compare
+            st.ob("inconclusive", key="err:" + pkey, note="distractor evidence has probability 0")
+            return st
         if (e1 is None) != (e2 is None):
             ok = violation("error", "x", "top-level %s, subquery wrapper %s" % (
                 type(e1).__name__ if e1 else "answers", type(e2).__name__ if e2 else "answers"))
@@ -215,6 +226,7 @@ def main(tier, seed):
         items.append((name, p, False))
         if any(s[0] == "evidence" for s in p):
             items.append((name + "+ev", p, True))
+            items.append((name + "+distract", p, "distract"))
     run.bounds = {"skeletons": len(items)}
     for st in pmap(work, items, item_timeout=120 if tier == "quick" else 600):
         run.merge(st)
